@@ -722,6 +722,7 @@ def handleRb (i o : List String) : String :=
   | _, _ => "BAD rb arity"
 
 def handle : Handler
+  | "rb" :: _, "PANIC" :: why => s!"VIOL panic (response transcoder panicked on this response_body path) {" ".intercalate (why.map (fun h => (parseHex h).map bytesToString |>.getD h))}"
   | "rb" :: i, o => handleRb i o
   | ["tbl", c], [out] => handleTbl c out
   | "cvt" :: [e], out => handleCvt e out
